@@ -431,3 +431,16 @@ func Setenv(key, val string) {
 
 // Unsetenv removes an environment variable.
 func Unsetenv(key string) { os.Unsetenv(key) }
+
+// TempFile returns the path of an existing file with the given content (natively a fresh
+// temporary file; under symgo a fixed path, since file I/O is stubbed there).
+func TempFile(content string) string {
+	f, err := os.CreateTemp("", "zzverif-*")
+	if err != nil {
+		Diverge("TempFile: " + err.Error())
+		return "/nonexistent"
+	}
+	f.WriteString(content)
+	f.Close()
+	return f.Name()
+}
